@@ -206,7 +206,7 @@ func ExportRoundTrip(profile string, baseSeed int64, n int, tier, keep string) M
 		if h.W.Rng.Intn(100) < 60 {
 			// exports right after a payout block carry no pending stake updates
 			cut = int(h.N.Period) * (1 + h.W.Rng.Intn((o.Blocks-6)/int(h.N.Period)))
-			cut -= int((h.N.Height + 1) % h.N.Period) // first block is InitialHeight
+			cut -= int(h.N.Height % h.N.Period) // after `cut` blocks the height is a multiple of the period: the payout block itself is the last one executed
 			if cut < 1 {
 				cut += int(h.N.Period)
 			}
@@ -256,6 +256,9 @@ func ExportRoundTrip(profile string, baseSeed int64, n int, tier, keep string) M
 		st.Emission = adb.Emission().String()
 		t, r0, r1, reward, off := adb.GetPrice()
 		st.PrevReward = types.RewardPrice{Time: uint64(t.UTC().UnixNano()), AmountBIP: r0.String(), AmountUSDT: r1.String(), Off: off, Reward: reward.String()}
+		if _, safe := h.N.App.CurrentState().App().Reward(); safe != nil {
+			st.PrevReward.SafeReward = safe.String() // as `minter export` does since /repo 9bb5ac3
+		}
 		no := o.Node
 		no.InitialHeight = int64(h.N.Height) + 1
 		n2, err := NewNode(st, no)
